@@ -365,6 +365,50 @@ SameOutline(A, B, tol) ==
       b == DrawnContours(B, tol)
   IN Len(a) = Len(b) /\ \A k \in 1..Len(a) : SameContour(a[k], b[k], tol)
 
+(* ---- the same comparison on an integer grid (what the judge uses: no rational arithmetic in
+   the inner loop).  A reference coordinate x becomes the integer nearest to x * G (error <=
+   1/2 unit); observations are already integers in units of 1/G.  Two points are taken as
+   equal when they differ by at most T units in x and in y: certainly when the true
+   difference is <= (T - 1) / G, never when it is >= (T + 1) / G. *)
+GBad == MaxInt31
+GridCoord(a, G) ==
+  IF RBad(a) THEN GBad
+  ELSE LET q == a[1] \div a[2]
+           r == a[1] % a[2]
+       IN IF ~MulFits(q, G) \/ ~MulFits(2 * G, r) THEN GBad
+          ELSE IF ~AddFits(2 * G * r, a[2]) \/ ~MulFits(2, a[2]) THEN GBad
+          ELSE LET rr == (2 * G * r + a[2]) \div (2 * a[2]) IN
+               IF AddFits(q * G, rr) THEN q * G + rr ELSE GBad
+GridAtom(a, G) == [i \in 1..Len(a) |-> <<GridCoord(a[i][1], G), GridCoord(a[i][2], G)>>]
+GridOutline(o, G) == TLCEval([k \in 1..Len(o) |-> TLCEval([j \in 1..Len(o[k]) |-> TLCEval(GridAtom(o[k][j], G))])])
+GridBad(o) == \E k \in 1..Len(o) : \E j \in 1..Len(o[k]) : \E i \in 1..Len(o[k][j]) :
+                 o[k][j][i][1] = GBad \/ o[k][j][i][2] = GBad
+IDist(a, b) == IF a >= b THEN a - b ELSE b - a
+PtNearI(p, q, T) == IDist(p[1], q[1]) <= T /\ IDist(p[2], q[2]) <= T
+AtomNearI(a, b, T) == Len(a) = Len(b) /\ \A i \in 1..Len(a) : PtNearI(a[i], b[i], T)
+TinyI(a, T) == \A i \in 2..Len(a) : PtNearI(a[i], a[1], T)
+AllTinyI(s, i, T) == \A k \in i..Len(s) : TinyI(s[k], T)
+RECURSIVE AlignFromI(_, _, _, _, _)
+AlignFromI(R, O, i, j, T) ==
+  IF i > Len(R) THEN AllTinyI(O, j, T)
+  ELSE IF j > Len(O) THEN AllTinyI(R, i, T)
+  ELSE IF AtomNearI(R[i], O[j], T) THEN AlignFromI(R, O, i + 1, j + 1, T)
+  ELSE IF TinyI(R[i], T) THEN AlignFromI(R, O, i + 1, j, T)
+  ELSE IF TinyI(O[j], T) THEN AlignFromI(R, O, i, j + 1, T)
+  ELSE FALSE
+DrawnI(c, T) == \E k \in 1..Len(c) : ~TinyI(c[k], T)
+SameContourI(R, O, T) ==
+  LET jo == CHOOSE j \in 1..Len(O) : ~TinyI(O[j], T) /\ \A k \in 1..(j - 1) : TinyI(O[k], T)
+      O2 == Rotate(O, jo - 1)
+  IN \E r \in 0..(Len(R) - 1) :
+        /\ PtNearI(R[r + 1][1], O2[1][1], T)
+        /\ LET Rr == Rotate(R, r) IN AlignFromI(Rr, O2, 1, 1, T)
+DrawnContoursI(o, T) == SelectSeq(o, LAMBDA c : DrawnI(c, T))
+SameOutlineI(A, B, T) ==
+  LET a == DrawnContoursI(A, T)
+      b == DrawnContoursI(B, T)
+  IN Len(a) = Len(b) /\ \A k \in 1..Len(a) : SameContourI(a[k], b[k], T)
+
 (* named convention LsbRounded: at a variation location the side bearing is an integer
    metric; an implementation may place the glyph with the rounded shift.  Candidates: the
    exact shift and the integers within 1/2 of it *)
